@@ -20,9 +20,10 @@
            mirror := T = X /\ S = Y;
            with ec: a response that does not mirror is a mismatch (state 2, process returned false, nothing sent);
            a mirroring response (or any, without ec) with the expected number completes the logon (state 1).
-       Expected number: 1 if sequence numbers are reset (r for the acceptor, the reset_sequence_numbers
-       parameter for the initiator), else the recv_seqnum argument of start if given, else the control record
-       of a file persister if there is one, else 1. *)
+       Expected number, acceptor: 1 if r, else the recv_seqnum argument of start if given, else the control
+       record of a file persister if there is one, else the session's current number (previous snapshot);
+       initiator: the session's current number (set at start from reset_sequence_numbers / recv_seqnum /
+       the control record). *)
 From Coq Require Import NArith ZArith List Bool.
 From F8 Require Import Sess.Bytes Sess.Msg Sess.Persist Sess.Session Sess.Wire C23.SessionID.
 Import ListNotations.
@@ -67,16 +68,18 @@ Fixpoint first_group (evs : list event) (cur : list event) : option (list event 
 Record ost := mkO {
   o_sp : startp;
   o_state : option N;
-  o_ctrl : option (N * N)
+  o_ctrl : option (N * N);
+  o_recv : N                       (* next expected inbound number shown by the previous snapshot *)
 }.
-Definition ost0 : ost := mkO default_sp None None.
+Definition ost0 : ost := mkO default_sp None None 1.
 
+(* acceptor: the number the Logon has to carry *)
 Definition expected_recv (o : ost) (reset : bool) : N :=
   if reset then 1
   else if negb (sp_rs (o_sp o) =? 0) then sp_rs (o_sp o)
   else match sp_pk (o_sp o), o_ctrl o with
        | PFile, Some (_, b) => b
-       | _, _ => 1
+       | _, _ => o_recv o
        end.
 
 Definition snap_is (st : step) (v : N) : bool :=
@@ -123,8 +126,7 @@ Definition initiator_logon_ok (o : ost) (raw : bytes) (g : list event * Z) (st :
   let S := fldv T_SenderCompID raw in
   let T := fldv T_TargetCompID raw in
   let mirror := beq T (sp_snd p) && beq S (sp_tgt p) in
-  let in_seq := match undec (fldv T_MsgSeqNum raw) with
-                | Some n => n =? expected_recv o (pr_rsn (sp_par p)) | None => false end in
+  let in_seq := match undec (fldv T_MsgSeqNum raw) with Some n => n =? o_recv o | None => false end in
   if pr_ec (sp_par p) && negb mirror then
     negb (any_out (fst g)) && (snd g =? 0)%Z && (if alone then snap_is st st_session_terminated else true)
   else if in_seq then
@@ -134,8 +136,9 @@ Definition initiator_logon_ok (o : ost) (raw : bytes) (g : list event * Z) (st :
 Definition c23_step (o : ost) (oper : op) (st : step) : option ost :=
   let state' := match st_snap st with Some sn => Some (sn_state sn) | None => o_state o end in
   let ctrl' := match st_snap st with Some sn => sn_ctrl sn | None => o_ctrl o end in
+  let recv' := match st_snap st with Some sn => sn_recv sn | None => o_recv o end in
   match oper with
-  | OStart p _ => Some (mkO p state' ctrl')
+  | OStart p _ => Some (mkO p state' ctrl' recv')
   | OIn chunks =>
     let ms := fst (frames (concat chunks)) in
     let verdict :=
@@ -151,8 +154,8 @@ Definition c23_step (o : ost) (oper : op) (st : step) : option ost :=
         else true
       | _, _ => true
       end in
-    if verdict then Some (mkO (o_sp o) state' ctrl') else None
-  | _ => Some (mkO (o_sp o) state' ctrl')
+    if verdict then Some (mkO (o_sp o) state' ctrl' recv') else None
+  | _ => Some (mkO (o_sp o) state' ctrl' recv')
   end.
 
 Fixpoint c23_steps (o : ost) (ops : list op) (tr : trace) : bool :=
